@@ -3,7 +3,8 @@ import SageModel.Model.C12
 
 /-! Driver ops for C12.
 
-`specq [n label…] | [n u32…] passing`   labels: 1 = decoy, 0 = target.
+`specq [n label…] junk | [n u32…] passing`   labels: 1 = decoy, 0 = target; `junk` seeds the stale
+values of all other PSM fields on the Rust side and is ignored here: the result depends on the labels only.
 -/
 namespace Sage.C12
 open Sage.Proto
@@ -15,7 +16,7 @@ def toF32 (q : Rat) : Float32 := Float32.ofNat q.num.toNat / Float32.ofNat q.den
 def handle (op : String) (args impl : List String) : Option Reply :=
   match op with
   | "specq" => do
-    let labels ← run (list bool) args
+    let (labels, _junk) ← run (do let l ← list bool; let j ← nat; pure (l, j)) args
     let (qs, passing) := spectrumQ labels
     let model := outList (fun q => outF32 (toF32 q)) qs ++ " " ++ toString passing
     -- spec evaluated on the implementation's reply
